@@ -15,7 +15,7 @@ import z3
 from .repo import Unsupported, REPO_ROOT
 from .contract import Obligation, Verifier, VERIF_ROOT
 from .smt import discharge, solve_model
-from .sym import concretise, length_terms
+from .sym import concretise
 from .values import str_distinct_axioms, theory_axioms, str_lit_table
 
 NATIVE_PY = os.environ.get("VERIF_NATIVE_PY", "/venv/bin/python")
@@ -95,6 +95,41 @@ class Session:
         self.obligations.append(o)
         return o
 
+    def attempt_all(self, tasks, procs=None):
+        """Run obligation generators in forked worker processes (symbolic execution dominates the wall time).
+        tasks: list of (label, fn).  Obligations come back as SMT-LIB text; a failing one is regenerated
+        in this process to obtain z3 objects for model extraction and replay."""
+        global _TASKS
+        _TASKS = tasks
+        if not tasks:
+            return
+        import multiprocessing as mp
+        procs = procs or min(16, os.cpu_count() or 4, len(tasks))
+        if procs <= 1:
+            outs = [_run_task(i) for i in range(len(tasks))]
+        else:
+            pool = mp.get_context("fork").Pool(procs)
+            try:
+                outs = pool.map(_run_task, range(len(tasks)), chunksize=1)
+            finally:
+                pool.close()
+                pool.join()
+        for (label, fn), (status, payload, extra) in zip(tasks, outs):
+            if status == "ok":
+                def regen(fn=fn):
+                    r = fn()
+                    r = r[0] if isinstance(r, tuple) else r
+                    return r if isinstance(r, list) else [r]
+                self.add([Obligation.from_stub(d, regen) for d in payload])
+                if self.ver is not None and extra:
+                    self.ver.functions_under_contract.update(extra["fuc"])
+                    for k, v in extra["trace"].items():
+                        self.ver.trace.setdefault(k, set()).update(v)
+            elif status == "unsupported":
+                self.undecided.append(dict(what=label, reason=f"outside the verified subset: {payload}"))
+            else:
+                self.errors.append(f"{label}: {payload}")
+
     # ------------------------------------------------------------------ discharging
     def discharge_all(self):
         obls = self.obligations
@@ -105,8 +140,7 @@ class Session:
         if wit:
             qs = []
             for o in wit:
-                exp = bounded_expand(o.assertions, 2)
-                qs.append(to_smt2(exp + theory_axioms(exp)))
+                qs.append(o.smt2_expanded(2))
             for o, r in zip(wit, discharge(qs, timeout_ms=min(self.timeout_ms, 5000), cross=False, cvc5=False)):
                 if r["result"] == "sat":
                     r["backend"] += "+bounded-expansion(B=2)"
@@ -122,14 +156,14 @@ class Session:
         # second round: bounded expansion of index quantifiers, for witnesses only (a `sat` there is a
         # genuine `sat`): covers/canaries that stayed unknown, and proof obligations that stayed unknown
         from .smt import bounded_expand, to_smt2
-        again = [o for o in obls if o.verdict["result"] == "unknown"]
+        again = [o for o in obls if o.verdict["result"] == "unknown" and o.expect == "unsat"]
         for B in (2, 4):
             if not again:
                 break
             qs = []
             for o in again:
                 try:
-                    qs.append(to_smt2((lambda ex_: ex_ + theory_axioms(ex_))(bounded_expand(o.assertions, B))))
+                    qs.append(o.smt2_expanded(B))
                 except Exception as e:
                     qs.append("(assert false)(check-sat)")
             rs = discharge(qs, timeout_ms=self.timeout_ms, cross=False)
@@ -167,6 +201,7 @@ class Session:
             self.failed(o)
 
     def failed(self, o: Obligation):
+        o.materialise()
         entry = next((k for k in self.known if fnmatch.fnmatch(o.id, k["key"])), None)
         if entry is not None:
             if entry["region"]:
@@ -219,7 +254,7 @@ class Session:
                     rec["model_result"] = concretise(model, o.result_val, str_table=str_lit_table())
             except Exception as e:
                 rec["inputs_error"] = f"{type(e).__name__}: {e}"
-        if "inputs" in rec and o.meta.get("contract") and self.ver is not None:
+        if "inputs" in rec and o.meta.get("contract") and self.ver is not None and o.kind in ("post", "exc", "exc-conv"):
             c = self.ver.contracts.get(o.meta["contract"])
             if c is not None:
                 rec["contract_module"] = c.module.name
@@ -238,26 +273,24 @@ class Session:
         self.violations.append(dict(obligation=o.id, replay=path, reproduced=bool(reproduced)))
 
     def shrunk_model(self, o: Obligation):
-        lens = []
-        for v in o.inputs.values():
-            lens += length_terms(v)
-        base = o.assertions + theory_axioms(o.assertions)
-        if getattr(o, "expanded_B", None):
-            from .smt import bounded_expand
-            exp = bounded_expand(o.assertions, o.expanded_B)
-            model, r = solve_model(exp + theory_axioms(exp), timeout_ms=self.timeout_ms)
+        """a model of the failed obligation with small lists (B = 2, 3, 6), on the bounded expansion first"""
+        from .smt import bounded_expand
+        from .sym import length_constraints
+        for B in (getattr(o, "expanded_B", None) or 2, 3, 6):
+            size = []
+            for v in o.inputs.values():
+                size += length_constraints(v, B)
+            try:
+                exp = bounded_expand(o.assertions + size, max(B, 2))
+                model, r = solve_model(exp + theory_axioms(exp), timeout_ms=min(self.timeout_ms, 10000))
+                if model is not None:
+                    return model
+            except Exception:
+                pass
+            model, r = solve_model(o.assertions + size + theory_axioms(o.assertions), timeout_ms=min(self.timeout_ms, 10000))
             if model is not None:
                 return model
-        for bound in (3, 6, None):
-            extra = [l <= bound for l in lens] if bound is not None else []
-            if bound is None and not lens:
-                break
-            model, r = solve_model(base + extra, timeout_ms=self.timeout_ms)
-            if model is not None:
-                return model
-            if not lens:
-                break
-        model, _ = solve_model(base, timeout_ms=self.timeout_ms)
+        model, _ = solve_model(o.assertions + theory_axioms(o.assertions), timeout_ms=self.timeout_ms)
         return model
 
     # ------------------------------------------------------------------ bounded stand-ins (native)
@@ -283,6 +316,7 @@ class Session:
         res["wall_s"] = round(time.time() - t, 2)
         if res.get("repo_file") and not os.path.realpath(res["repo_file"]).startswith(os.path.realpath(REPO_ROOT)):
             self.errors.append(f"stand-in imported soundevent from {res['repo_file']}, not from {REPO_ROOT}")
+        shown = 0
         for fail in res.get("failures", []):
             entry = next((k for k in self.known if fnmatch.fnmatch("standin:" + fail["key"], k["key"])), None)
             if entry is not None:
@@ -293,8 +327,12 @@ class Session:
             path = os.path.join(OUT_ROOT, "replays", f"{self.prop}_standin_{safe}.json")
             with open(path, "w") as f:
                 json.dump(dict(property=self.prop, standin=module, case=fail), f, indent=1, default=str)
-            print(f"VIOLATION property={self.prop} replay={path}", flush=True)
-            print(f"  bounded stand-in {module}: {fail.get('what', fail['key'])}", flush=True)
+            shown += 1
+            if shown <= 3:
+                print(f"VIOLATION property={self.prop} replay={path}", flush=True)
+                print(f"  bounded stand-in {module}: {str(fail.get('what', fail['key']))[:400]}", flush=True)
+            elif shown == 4:
+                print(f"  bounded stand-in {module}: further failing cases are written to replays/ only", flush=True)
             self.violations.append(dict(standin=module, key=fail["key"], replay=path, reproduced=True))
         res["failures"] = len(res.get("failures", []))
         self.standins.append(res)
@@ -378,6 +416,30 @@ class Session:
         if self.undecided:
             return 2
         return 0
+
+
+_TASKS = []
+
+
+def _run_task(i):
+    label, fn = _TASKS[i]
+    try:
+        r = fn()
+        ver = None
+        if isinstance(r, tuple):
+            obls = r[0]
+        else:
+            obls = r
+        obls = obls if isinstance(obls, list) else [obls]
+        extra = None
+        v = getattr(fn, "ver", None)
+        if v is not None:
+            extra = dict(fuc=dict(v.functions_under_contract), trace={k: set(map(str, s_)) for k, s_ in v.trace.items()})
+        return "ok", [o.stub() for o in obls], extra
+    except Unsupported as e:
+        return "unsupported", str(e), None
+    except Exception as e:
+        return "error", f"{type(e).__name__}: {e}\n" + "".join(traceback.format_exc().splitlines(True)[-7:]), None
 
 
 def native_replay(path):
